@@ -24,7 +24,7 @@ SECONDS = [0, 1, (1 << 31) - 1, 1 << 31, (1 << 32) - 1, 1700000000]
 def describe(tier):
     return {
         "rule": f"T: {len(c01.classes())} cipher-state classes x IPv4/IPv6 x segment sizes (1460, 100, 9) with distinct MAC/IP/port per "
-                "connection and awkward sub-second parts, four connections per capture (two of them between the same IP addresses as the first but over other MAC addresses); Q: QUIC default + every 1-deviation scenario; "
+                "connection and awkward sub-second parts, four connections per capture (two of them between the same IP addresses as the first but over other MAC addresses); T also: closing alerts and a run with -a in which added handshake/alert material must travel in its sender's direction; Q: QUIC default + every 1-deviation scenario of C02's menu (incl. instants nanoseconds apart, Version Negotiation), CRYPTO-only tails, every cut; "
                 "M: all 10^6 microsecond values x seconds {0,1,2^31-1,2^31,2^32-1,1.7e9}" + (" (quick: seconds 1.7e9 and 2^32-1 "
                 "exhaustive, the others every 97th microsecond)" if tier == "quick" else "") +
                 ". non-trivial: T/Q - an execution in which >= 2 output packets with payload were attributed; M - every timestamp; "
